@@ -110,10 +110,10 @@ def load_known(pid):
 def match_known(entry, desc, codes, detail):
     """`match` is a python expression over desc / codes / detail (committed file, never written at run time)."""
     try:
-        return bool(eval(entry["match"], {"__builtins__": {}},
-                         {"desc": desc, "codes": set(codes), "detail": detail, "len": len, "abs": abs,
-                          "any": any, "all": all, "set": set, "min": min, "max": max, "isinstance": isinstance,
-                          "dict": dict, "list": list, "int": int, "str": str, "sum": sum}))
+        helpers = {"__builtins__": {}, "len": len, "abs": abs, "any": any, "all": all, "set": set, "min": min, "max": max,
+                   "isinstance": isinstance, "dict": dict, "list": list, "int": int, "str": str, "sum": sum}
+        # helpers live in the globals so that generator expressions inside the match string see them
+        return bool(eval(entry["match"], helpers, {"desc": desc, "codes": set(codes), "detail": detail}))
     except Exception as ex:  # a match expression that does not apply to this verdict shape
         return False
 
